@@ -1,7 +1,7 @@
 (* C01 property theorems. *)
 From Coq Require Import NArith ZArith List Bool Arith.
 From Coq Require Import Permutation Sorted.
-From OG Require Import C01.Model C01.Proofs C01.Proofs2 C01.Proofs3 C01.Proofs4 C01.Proofs5.
+From OG Require Import C01.Model C01.Proofs C01.Proofs2 C01.Proofs3 C01.Proofs4 C01.Proofs5 C01.ProofsC.
 Import ListNotations.
 
 (* records appended to partition (counter mod n) starting from counter 0, replayed one record per unfinished
@@ -139,6 +139,51 @@ Example marker_first_example :
   recovered_disk 3 (wrun ops) 1 (1, 1, 1)%N = Some 13%Z /\ recovered_disk 3 (wrun ops) 2 (1, 1, 1)%N = Some 13%Z /\
   recovered_disk 3 (wrun ops) 2 (1, 2, 1)%N = Some 14%Z.
 Proof. vm_compute. repeat split; try reflexivity; auto. Qed.
+
+(* Concurrent write requests (machine cwstate of Model.v: exclusive section at the head of WAL.Write, then - holding the WAL
+   lock shared - slot = counter++, append to partition slot mod n under the partition lock, release, acknowledge; requests
+   that are inside together may append to one partition in ANY order). For every n > 0 and EVERY schedule: take any entry
+   into the exclusive section, m = the counter value at that moment. Every record with a slot below m is replayed before every
+   record with a slot >= m, wherever the two sit. Requests acknowledged by that moment have slots below m and are on disk
+   (second theorem); a request that enters then or later gets a slot >= m. So the replay order respects the order
+   "acknowledged before the other one started" - for the log of one switch epoch starting at counter 0, i.e. for the
+   repaired replay (C01_recovery_exact takes it from there, epoch by epoch). *)
+Theorem C01_barrier_replay_respects_ack_order : forall (n : nat) (ops : list cwop) (m : nat) (A : list nat) (p1 i1 s1 p2 i2 s2 : nat),
+  0 < n -> In (m, A) (cw_quiet (cwrun true n ops)) ->
+  nth_error (nth p1 (cw_parts (cwrun true n ops)) []) i1 = Some s1 ->
+  nth_error (nth p2 (cw_parts (cwrun true n ops)) []) i2 = Some s2 ->
+  s1 < m -> m <= s2 -> before s1 s2 (cw_replay (cwrun true n ops)).
+Proof. exact barrier_order. Qed.
+Print Assumptions C01_barrier_replay_respects_ack_order.
+
+Theorem C01_acked_at_entry_on_disk : forall (n : nat) (ops : list cwop) (m : nat) (A : list nat) (s : nat),
+  0 < n -> In (m, A) (cw_quiet (cwrun true n ops)) -> In s A ->
+  s < m /\ exists i, nth_error (nth (s mod n) (cw_parts (cwrun true n ops)) []) i = Some s.
+Proof. exact acked_at_entry_on_disk. Qed.
+Print Assumptions C01_acked_at_entry_on_disk.
+
+(* the replay order of any log is the lexicographic order of (position inside the partition, partition number) *)
+Theorem C01_replay_order_is_lexicographic : forall (A : Type) (F : nat) (parts : list (list A)) (p1 i1 p2 i2 : nat) (x y : A),
+  nth_error (nth p1 parts []) i1 = Some x -> nth_error (nth p2 parts []) i2 = Some y ->
+  i1 < i2 \/ (i1 = i2 /\ p1 < p2) -> i2 < F -> before x y (replay F parts).
+Proof. intros A F. exact (replay_lex F). Qed.
+Print Assumptions C01_replay_order_is_lexicographic.
+
+(* sensitivity (model only; today's code HAS the exclusive section, the harness checks on every run that a request held at
+   its log append keeps later requests from being acknowledged): without it request 1, acknowledged before request 2
+   entered, is replayed after it *)
+Theorem no_barrier_inversion :
+  cw_replay (cwrun false 2 nobarrier_ops) = [2; 1; 0] /\ In (2, [1]) (cw_quiet (cwrun false 2 nobarrier_ops)) /\
+  cw_replay (cwrun true 2 nobarrier_ops) = [0].
+Proof. exact nobarrier_inversion. Qed.
+Print Assumptions no_barrier_inversion.
+
+(* non-vacuity: 2 partitions, requests 0 and 2 are inside together and append to partition 0 in swapped order; request 1 was
+   acknowledged before the entry at counter 3; request 3 entered there *)
+Example barrier_example :
+  let ops := [CEnter; CEnter; CEnter; CSlot; CSlot; CSlot; CAppend 2; CAppend 1; CAck 1; CAppend 0; CAck 0; CAck 2; CEnter; CSlot; CAppend 3] in
+  cw_parts (cwrun true 2 ops) = [[2; 0]; [1; 3]] /\ In (3, [2; 0; 1]) (cw_quiet (cwrun true 2 ops)) /\ cw_replay (cwrun true 2 ops) = [2; 1; 0; 3].
+Proof. vm_compute. repeat split; auto. Qed.
 
 (* re-applying in order a part of the history that is already in the data files changes nothing (replay of a log
    whose prefix is flushed) *)
